@@ -20,6 +20,16 @@ CLAIMED = {
   text='Proof: for all entry lists/masks, ll = sum of -m+d ln m-lg(d+1) over exactly the indices masked in neither (and m>0, numpy.ma.log); reported scaling = sum(d)/sum(m) over those indices; for all s>0 ll(s*m,d) <= ll_multinom(m,d) = ll(s_opt*m,d) (from ln x <= x-1); ll_multinom(c*m,d)=ll_multinom(m,d) for all c<>0 and any-sign models; every positive model with the same masks has ll_multinom <= that of const*data (zeros in the data handled; needs lg 1 = 0); auto-fold; residual masks, values and sign. The arithmetic lines of ll_per_bin and both residuals are re-translated from the current source each run and proved equal to the model; wiring statements and intersect_masks (incl. its mask_corners flag) are matched against the expected AST; all seven functions are run against the model over exact rationals (d=1..3, projected/non-integer data, zeros, independent masks, folded data, zero/negative model stream).',
   note='Trusted: Coq kernel+vm_compute; Reals axioms (sig_forall_dec, sig_not_dec, classic, functional_extensionality_dep); gammaln uninterpreted (lg); fold a function argument with hypothesis fold(s*l)=s*fold(l), discharged for the executable fold_flat, whose equality with Spectrum.fold is covered by the folded correspondence cases (C09 owns folding); numpy.ma semantics modelled by hand; Qln_fast/Qexp_fast/Qlgamma approximations (checked against math.log/lgamma every run). scaling_is_ratio and the two maximum theorems carry a corner hypothesis that holds for the code since fix e944ec0 (intersect_masks passes mask_corners=False); the refuted variant is kept as a theorem.',
   technique='Coq proof (index-sum algebra, ln x <= x-1, Rpower monotonicity) + per-run translated obligations + correspondence by vm_compute over Q', design='4/C11'),
+
+ 'C08': dict(
+  text='Proof (one clause partial): machine-checked for all n, m, j, all dimensions and axes: weights sum to 1, two-stage = one-stage (data and mask), support = the least/most window so masks spread exactly, axes commute (data and mask), every projected entry = hypergeometric expectation, total conserved for one axis and for the whole unfolded Spectrum.project, neutral 1/i interior fixed point, reversal symmetry (projection commutes with reverse_array), upward refused. Partial: fold(project fs) = project(fold fs) is proved only as "projection commutes with reversal of all axes" (data and mask); the fold/unfold algebra itself is C09. That identity, and folded projection == fold(project(unfold)), are evaluated on the implementation every run.',
+  note='Trusted: Coq kernel+vm_compute; Reals axioms (sig_forall_dec, sig_not_dec, classic, functional_extensionality_dep); MathComp binomial.v; the harness + AST source-shape obligations. Floats vs exact: gammaln/exp weights compared with exact rationals at 1e-11 relative (observed max 2^-41); data non-negative in the correspondence cases.',
+  technique='Coq proof with MathComp binomial identities (Vandermonde etc.) + correspondence inside Coq over Q + source-shape obligations + predicates on the real code', design='4/C08'),
+
+ 'C12': dict(
+  text='Proof, partial. Proved for all lists / fixed patterns / any optimiser: _project_params_up/_down mutually inverse; every model evaluation of _object_func has passed its bound test (any optimiser, any proposal); under an explicit oracle contract (start evaluated first, only inside the box handed over, returned point evaluated and best, reported value = its value): NLopt_mod.opt and every scipy wrapper (optimize, optimize_log, optimize_lbfgsb, optimize_log_lbfgsb, optimize_log_fmin, optimize_log_powell, optimize_cons, optimize_grid) return fixed entries unchanged, free entries within bounds, ll(popt)=reported optimum, no worse than the start, first model evaluation at p0; perturb_params stays in bounds when lower<=0.99*upper (narrow boxes refuted with a witness: known finding). The snapshot forms that violated the property are kept as refuted theorems next to the repaired ones. Per run: wrapper pre/post-processing re-read from the source AST and compared with the model table; scripted optimisers (nlopt.opt / scipy.optimize.* replaced by stubs playing a proposal list) run through real glue and Coq model over exact rationals; real nlopt/scipy optimisers on closed-form Spectrum models with every model evaluation logged and the returned point re-evaluated; every subset of fixed parameters, multinom on/off, log on/off, None bounds.',
+  note='Partial: nlopt/scipy internals are an oracle (Section variable O with hypothesis contract); real runs log how often the observable contract clauses held. Scripted runs replace ll/ll_multinom by closed-form quadratics (C11 owns the likelihood). Not modelled: nlopt.RoundoffLimited handler, eq/ineq constraints, verbose/output_file. Trusted: Coq kernel+vm_compute; Reals axioms (sig_forall_dec, sig_not_dec, classic, functional_extensionality_dep); Num parametricity; the AST descriptor reader; the harness. Float vs exact at 1e-10 x max-norm.',
+  technique='Coq proof (list induction, oracle-contract reasoning, exp/ln monotonicity) + per-run source descriptors + correspondence by vm_compute over Q + property predicates on real optimisers', design='4/C12'),
 }
 NOT_YET = {}
 def main():
